@@ -10,7 +10,7 @@
  *
  *   init <lht|fifo|lifo|lru> <max> <keyDtor 0|1> <valDtor 0|1> <hashmode>
  *   put <ident> <ptr> <val> | find <ident> | findmv <ident> | remove <ident> | clear
- *   mvend <ident> | uselru | getmru
+ *   mvend <ident> | uselru | getmru | destroy   (clean_up / aws_cache_destroy with its destructor calls observed)
  * <ident> 1000 is the NULL key (legal for aws_hash_table: hash 42, equal to itself only; the user's hash / equality
  * callbacks never see it; its pointer number is always 0), <val> 0 is the NULL value.
  */
@@ -123,8 +123,13 @@ static bool s_eq(const void *a, const void *b) {
     return ((const struct hkey *)a)->ident == ((const struct hkey *)b)->ident;
 }
 
+static unsigned s_td_keys, s_td_vals; /* destructor calls seen while tearing down quietly */
+
 static void s_on_key_destroy(void *p) {
     struct hkey *k = p;
+    if (s_quiet) {
+        ++s_td_keys;
+    }
     if (!p) { /* the NULL key: nothing to free */
         if (!s_quiet) {
             HC_CHECK(s_nevs < MAX_EVS);
@@ -148,6 +153,9 @@ static void s_on_key_destroy(void *p) {
 
 static void s_on_val_destroy(void *p) {
     struct hval *v = p;
+    if (s_quiet) {
+        ++s_td_vals;
+    }
     if (!p) { /* the NULL value */
         if (!s_quiet) {
             HC_CHECK(s_nevs < MAX_EVS);
@@ -173,16 +181,32 @@ static struct aws_linked_hash_table *s_table(void) {
     return s_kind == K_LHT ? &s_lht : &s_cache->table;
 }
 
-static void s_reset(void) {
-    s_quiet = true;
+static void s_teardown(void) {
     if (s_kind == K_LHT) {
         aws_linked_hash_table_clean_up(&s_lht);
     } else if (s_kind != K_NONE) {
         aws_cache_destroy(s_cache);
         s_cache = NULL;
     }
-    if (s_kind != K_NONE && hc_live_blocks() != 0) {
-        printf("W MONITOR leak blocks=%ld\n", hc_live_blocks());
+}
+
+static void s_reset(void) {
+    s_quiet = true;
+    s_td_keys = s_td_vals = 0;
+    size_t held = 0;
+    if (s_kind != K_NONE) {
+        held = aws_linked_hash_table_get_element_count(s_table());
+    }
+    s_teardown();
+    /* clean_up / destroy displaces every entry still held: its key and value destroyed exactly once, all memory returned */
+    if (s_kind != K_NONE &&
+        (hc_live_blocks() != 0 || (s_key_dtor && s_td_keys != held) || (s_val_dtor && s_td_vals != held))) {
+        printf(
+            "P MONITOR teardown of %zu entries: key destructor calls=%u value destructor calls=%u blocks left=%ld\n",
+            held,
+            s_td_keys,
+            s_td_vals,
+            hc_live_blocks());
     }
     s_kind = K_NONE;
     for (size_t i = 0; i < MAX_IDENT; ++i) {
@@ -474,6 +498,14 @@ int main(void) {
                 printf("P mvend absent\n");
             }
             s_print_state();
+        } else if (!strcmp(t[0], "destroy") && n == 1) {
+            /* clean_up / destroy displaces every remaining entry: each key and value destroyed exactly once, and
+             * everything the table allocated is handed back */
+            s_teardown();
+            s_kind = K_NONE;
+            printf("P destroy\n");
+            s_print_evs(false);
+            printf("P leak=%ld\n", hc_live_blocks());
         } else if (!strcmp(t[0], "uselru") && n == 1 && s_kind == K_LRU) {
             s_print_val("uselru", aws_lru_cache_use_lru_element(s_cache));
             s_print_state();
